@@ -160,18 +160,23 @@ theorem rank_s {s s' : St} {a : SAct} (hx : s.exited = none) (hs : sStep s a = s
     rename_i hw _
     simp only [rank, drank, srank, sigCredit, hw, hx]; simp
 
-theorem rank_d {s s' : St} {a : DAct} (h : Inv s) (hs : dStep s a = some s') :
+theorem rank_d {s s' : St} {a : DAct} (h : Inv s) (ha : a ≠ .createG ∧ a ≠ .cancelG ∧ a ≠ .joinG)
+    (hs : dStep s a = some s') :
     ((Label.d a).spurious = false → rank s' < rank s) ∧ rank s' ≤ rank s + 2 := by
   cases a with
+  | createG => exact absurd rfl ha.1
+  | cancelG => exact absurd rfl ha.2.1
+  | joinG => exact absurd rfl ha.2.2
   | createS =>
     simp only [dStep] at hs
-    split at hs <;> simp at hs; subst hs
-    rename_i hw
+    split at hs <;> (try split at hs) <;> simp at hs; subst hs
+    rename_i hw _
     simp [rank, drank, srank, sigCredit, hw, Label.spurious]; omega
   | cancelS =>
     simp only [dStep] at hs
     split at hs <;> (try split at hs) <;> simp at hs; subst hs
-    rename_i hd hc
+    rename_i hd hc0
+    have hc : ¬ s.spc = .cancelled := fun hh => hc0 (Or.inl hh)
     have : 1 ≤ srank s := by
       simp only [srank]; split <;> (first | omega | (rename_i hh; exact absurd hh hc))
     simp only [rank, drank, srank, sigCredit, hd, Label.spurious] at this ⊢
@@ -249,97 +254,250 @@ def Label.isTick : Label → Bool
   | .e (.tick _) => true
   | _ => false
 
+/-- the watchdog's return from sleep (driven by the clock, like a tick) -/
+def Label.isWdogWake : Label → Bool
+  | .g .wake => true
+  | _ => false
+
+/-! ## the watchdog's share of the rank (only with the STALEID repair; constant otherwise) -/
+
+def gpcRank (n : Nat) : GPC → Nat
+  | .off => 2 * n + 1
+  | .at k => 2 * (n - k)
+  | .inside k => 2 * (n - k) - 1
+  | .sleeping => 0
+  | .ended => 0
+
+def grank (s : St) : Nat :=
+  gpcRank s.ts.length s.gpc + (if s.gcan then 0 else 1) + (if s.gjoin then 0 else 1)
+
+/-- the rank of the whole system -/
+def trank (s : St) : Nat := rank s + grank s
+
+theorem grank_congr {s s' : St} (h1 : s'.gpc = s.gpc) (h2 : s'.gcan = s.gcan) (h3 : s'.gjoin = s.gjoin)
+    (h4 : s'.ts.length = s.ts.length) : grank s' = grank s := by
+  simp only [grank, h1, h2, h3, h4]
+
+theorem gpcRank_cancel (n : Nat) (p : GPC) : gpcRank n (if p = .sleeping then .ended else p) = gpcRank n p := by
+  cases p <;> simp [gpcRank]
+
+theorem rank_wd_d {s s' : St} {a : DAct} (ha : a = .createG ∨ a = .cancelG ∨ a = .joinG)
+    (hs : dStep s a = some s') : rank s' = rank s ∧ grank s' < grank s := by
+  refine ⟨by rw [d_wd_frame ha hs]; rfl, ?_⟩
+  rcases ha with ha | ha | ha <;> subst ha <;> simp only [dStep] at hs <;> split at hs <;> (try split at hs) <;>
+    simp at hs <;> subst hs
+  · rename_i hg _ _
+    simp only [grank, hg]
+    by_cases hn : 0 < s.ts.length
+    · simp only [if_pos hn, gpcRank]; omega
+    · simp only [if_neg hn, gpcRank]; omega
+  · rename_i _ hg
+    simp only [grank, hg.2, gpcRank_cancel]; simp
+  · rename_i _ hg
+    simp only [grank, hg.2.2]; simp
+
+theorem rank_g {s s' : St} {a : GAct} (h : Inv s) (hs : gStep s a = some s') :
+    rank s' = rank s ∧ (a ≠ .wake → grank s' < grank s) ∧ grank s' ≤ grank s + 2 * s.ts.length := by
+  refine ⟨by rw [g_step_frame hs]; rfl, ?_⟩
+  cases a with
+  | lockT =>
+    simp only [gStep] at hs
+    split at hs <;> simp at hs; subst hs
+    rename_i k _ hg
+    have hk := h.w.idx k (Or.inl hg)
+    simp only [grank, hg, gpcRank]
+    constructor
+    · intro _; omega
+    · omega
+  | unlockT =>
+    simp only [gStep] at hs
+    split at hs <;> simp at hs; subst hs
+    rename_i k hg
+    have hk := h.w.idx k (Or.inr hg)
+    simp only [grank, hg]
+    by_cases hn : k + 1 < s.ts.length
+    · simp only [if_pos hn, gpcRank]
+      constructor
+      · intro _; omega
+      · omega
+    · simp only [if_neg hn]
+      cases hc : s.gcan <;> simp only [gpcRank] <;> constructor <;> (try intro _) <;> simp <;> omega
+  | wake =>
+    simp only [gStep] at hs
+    split at hs <;> simp at hs; subst hs
+    rename_i hg
+    simp only [grank, hg]
+    constructor
+    · intro hc; exact absurd rfl hc
+    · by_cases hn : 0 < s.ts.length
+      · simp only [if_pos hn, gpcRank]; omega
+      · simp only [if_neg hn, gpcRank]; omega
+
+/-- steps that are not about the watchdog leave its share of the rank alone -/
+theorem grank_other {s s' : St} {l : Label} (hs : step s l = some s')
+    (hl : ∀ a, l = .d a → a ≠ .createG ∧ a ≠ .cancelG ∧ a ≠ .joinG) (hg : ∀ a, l ≠ .g a) : grank s' = grank s := by
+  cases l with
+  | g a => exact absurd rfl (hg a)
+  | e a =>
+    have hd := step_e hs
+    cases a <;> simp only [eStep] at hd <;> (try split at hd) <;> simp at hd <;> subst hd <;> rfl
+  | w i a =>
+    obtain ⟨p, q, _, rfl⟩ := w_facts (step_w hs)
+    apply grank_congr <;> cases a <;> simp [wEffect]
+  | s a =>
+    have hd := step_s hs
+    obtain ⟨e1, e2, e3, _⟩ := s_step_ctl hd
+    obtain ⟨_, _, _, _, _, _, hts⟩ := s_step_frame hd
+    exact grank_congr e1 e2 e3 (by rcases hts with h | ⟨_, h⟩ <;> rw [h]; simp)
+  | d a =>
+    have hd := step_d hs
+    obtain ⟨a1, a2, a3⟩ := hl a rfl
+    by_cases hp : a ≠ .createG ∧ a ≠ .createS ∧ a ≠ .cancelG ∧ a ≠ .joinG ∧ a ≠ .cancelS ∧ a ≠ .ret
+    · obtain ⟨e1, e2, e3, _, _, _, e7, _⟩ := d_plain_frame hp hd
+      exact grank_congr e1 e2 e3 (by rw [e7])
+    · cases a with
+      | createS =>
+        simp only [dStep] at hd
+        split at hd <;> (try split at hd) <;> simp at hd; subst hd; rfl
+      | cancelS =>
+        simp only [dStep] at hd
+        split at hd <;> (try split at hd) <;> simp at hd; subst hd; rfl
+      | ret =>
+        simp only [dStep] at hd
+        split at hd <;> (try split at hd) <;> simp at hd; subst hd; rfl
+      | createG => exact absurd rfl a1
+      | cancelG => exact absurd rfl a2
+      | joinG => exact absurd rfl a3
+      | lock | wait | wake _ | relock | create _ | unlock => exact absurd (by simp) hp
+
 /-- every step: a proper step decreases the rank, a spurious wake-up adds at most 2, a delivery at most the
-    credit `2n + 8`, a tick nothing -/
+    credit `2n + 8`, a tick nothing, the watchdog's return from sleep at most `2n` -/
 theorem rank_step {s s' : St} {l : Label} (h : Inv s) (hs : step s l = some s') :
-    (l.proper = true → rank s' < rank s) ∧ (l.spurious = true → rank s' ≤ rank s + 2) ∧
-    (l.isDeliver = true → rank s' ≤ rank s + sigCredit s) ∧ (l.isTick = true → rank s' = rank s) := by
+    (l.proper = true → trank s' < trank s) ∧ (l.spurious = true → trank s' ≤ trank s + 2) ∧
+    (l.isDeliver = true → trank s' ≤ trank s + sigCredit s) ∧ (l.isTick = true → trank s' = trank s) ∧
+    (l.isWdogWake = true → trank s' ≤ trank s + 2 * s.ts.length) := by
   have hx := step_live hs
   cases l with
+  | g a =>
+    obtain ⟨h1, h2, h3⟩ := rank_g h (step_wd hs)
+    refine ⟨fun hp => ?_, fun hc => by simp [Label.spurious] at hc, fun hc => by simp [Label.isDeliver] at hc,
+            fun hc => by simp [Label.isTick] at hc, fun _ => by simp only [trank, h1]; omega⟩
+    have : a ≠ .wake := by intro hc; subst hc; simp [Label.proper, Label.isEnv] at hp
+    have := h2 this
+    simp only [trank, h1]; omega
   | d a =>
-    have := rank_d h (step_d hs)
-    refine ⟨fun hp => this.1 ?_, fun _ => this.2, fun hc => by simp [Label.isDeliver] at hc,
-            fun hc => by simp [Label.isTick] at hc⟩
-    simp only [Label.proper, Bool.and_eq_true, Bool.not_eq_true'] at hp; exact hp.1
+    by_cases ha : a = .createG ∨ a = .cancelG ∨ a = .joinG
+    · obtain ⟨h1, h2⟩ := rank_wd_d ha (step_d hs)
+      refine ⟨fun _ => by simp only [trank, h1]; omega, fun _ => by simp only [trank, h1]; omega,
+              fun hc => by simp [Label.isDeliver] at hc, fun hc => by simp [Label.isTick] at hc,
+              fun hc => by simp [Label.isWdogWake] at hc⟩
+    · have ha' : a ≠ .createG ∧ a ≠ .cancelG ∧ a ≠ .joinG :=
+        ⟨fun hc => ha (Or.inl hc), fun hc => ha (Or.inr (Or.inl hc)), fun hc => ha (Or.inr (Or.inr hc))⟩
+      have hg := grank_other hs (fun b hb => by cases hb; exact ha') (fun b hb => by cases hb)
+      have := rank_d h ha' (step_d hs)
+      refine ⟨fun hp => ?_, fun _ => by simp only [trank, hg]; omega, fun hc => by simp [Label.isDeliver] at hc,
+              fun hc => by simp [Label.isTick] at hc, fun hc => by simp [Label.isWdogWake] at hc⟩
+      simp only [Label.proper, Bool.and_eq_true, Bool.not_eq_true'] at hp
+      have := this.1 hp.1
+      simp only [trank, hg]; omega
   | w i a =>
+    have hg := grank_other hs (fun b hb => by cases hb) (fun b hb => by cases hb)
     have := rank_w (step_w hs)
-    exact ⟨fun _ => this, fun hc => by simp [Label.spurious] at hc, fun hc => by simp [Label.isDeliver] at hc,
-           fun hc => by simp [Label.isTick] at hc⟩
+    exact ⟨fun _ => by simp only [trank, hg]; omega, fun hc => by simp [Label.spurious] at hc,
+           fun hc => by simp [Label.isDeliver] at hc, fun hc => by simp [Label.isTick] at hc,
+           fun hc => by simp [Label.isWdogWake] at hc⟩
   | s a =>
+    have hg := grank_other hs (fun b hb => by cases hb) (fun b hb => by cases hb)
     have := rank_s hx (step_s hs)
-    exact ⟨fun _ => this, fun hc => by simp [Label.spurious] at hc, fun hc => by simp [Label.isDeliver] at hc,
-           fun hc => by simp [Label.isTick] at hc⟩
+    exact ⟨fun _ => by simp only [trank, hg]; omega, fun hc => by simp [Label.spurious] at hc,
+           fun hc => by simp [Label.isDeliver] at hc, fun hc => by simp [Label.isTick] at hc,
+           fun hc => by simp [Label.isWdogWake] at hc⟩
   | e a =>
+    have hg := grank_other hs (fun b hb => by cases hb) (fun b hb => by cases hb)
     have := rank_e (step_e hs)
     refine ⟨fun hp => by simp [Label.proper, Label.isEnv] at hp, fun hc => by simp [Label.spurious] at hc,
-            fun hc => ?_, fun hc => ?_⟩
+            fun hc => ?_, fun hc => ?_, fun hc => by simp [Label.isWdogWake] at hc⟩
     · cases a with
-      | deliver g => exact this.1 g rfl
+      | deliver g => have := this.1 g rfl; simp only [trank, hg]; omega
       | tick v => simp [Label.isDeliver] at hc
     · cases a with
       | deliver g => simp [Label.isTick] at hc
-      | tick v => exact this.2 v rfl
+      | tick v => have := this.2 v rfl; simp only [trank, hg]; omega
 
-theorem rank_init (v : Variant) (g : Bool) (f n : Nat) (b : Bool) (t0 : Nat) : rank (init v g f n b t0) ≤ 25 * n + 16 := by
+theorem rank_init (v : Variant) (g sw : Bool) (f n : Nat) (b : Bool) (t0 : Nat) :
+    trank (init v g sw f n b t0) ≤ 27 * n + 19 := by
   have hs : ∀ n, ((List.replicate n WP.idle).map wrank).sum = 18 * n := by
     intro n; induction n with
     | zero => rfl
     | succ k ih => simp [List.replicate_succ, wrank] at ih ⊢; omega
-  simp only [rank, init, hs, srank, sigCredit]
+  simp only [trank, grank, gpcRank, rank, init, hs, srank, sigCredit]
   split <;> simp [drank] <;> omega
 
-/-- termination: in an execution with `k` spurious wake-ups and `d` deliveries the threads of pdsh take at most
-    `25n + 16 + 2k + (2n + 8)d` steps (whatever the clock does) -/
-theorem steps_bounded {v : Variant} {g : Bool} {f n t0 : Nat} {b : Bool} {ls : List Label} {s : St}
-    (he : Exec (init v g f n b t0) ls s) :
-    ls.countP Label.proper + rank s ≤
-      25 * n + 16 + 2 * ls.countP Label.spurious + (2 * n + 8) * ls.countP Label.isDeliver := by
-  have key : ∀ {ls s}, Exec (init v g f n b t0) ls s →
-      ls.countP Label.proper + rank s ≤
-        rank (init v g f n b t0) + 2 * ls.countP Label.spurious + (2 * n + 8) * ls.countP Label.isDeliver := by
+/-- termination: in an execution with `k` spurious wake-ups, `d` deliveries and `w` returns of the watchdog from its
+    sleep the threads of pdsh take at most `27n + 19 + 2k + (2n + 8)d + 2n·w` steps (whatever the clock does) -/
+theorem steps_bounded {v : Variant} {g sw : Bool} {f n t0 : Nat} {b : Bool} {ls : List Label} {s : St}
+    (he : Exec (init v g sw f n b t0) ls s) :
+    ls.countP Label.proper + trank s ≤
+      27 * n + 19 + 2 * ls.countP Label.spurious + (2 * n + 8) * ls.countP Label.isDeliver +
+        2 * n * ls.countP Label.isWdogWake := by
+  have key : ∀ {ls s}, Exec (init v g sw f n b t0) ls s →
+      ls.countP Label.proper + trank s ≤
+        trank (init v g sw f n b t0) + 2 * ls.countP Label.spurious + (2 * n + 8) * ls.countP Label.isDeliver +
+          2 * n * ls.countP Label.isWdogWake := by
     intro ls s he
     induction he with
     | nil => simp
     | snoc he' hs ih =>
       rename_i ls0 s0 l0 s1
-      have hinv := inv_exec (inv_init v g f n b t0) he'
+      have hinv := inv_exec (inv_init v g sw f n b t0) he'
       have hr := rank_step hinv hs
-      have hn : sigCredit s0 = 2 * n + 8 := by
+      have hlen : s0.ts.length = n := by
         have := (exec_params he').2.2.2.2
-        simp only [sigCredit, this, init, List.length_replicate]
-      rw [List.countP_append, List.countP_append, List.countP_append]
+        simpa [init] using this
+      have hn : sigCredit s0 = 2 * n + 8 := by simp only [sigCredit, hlen]
+      rw [hlen] at hr
+      rw [List.countP_append, List.countP_append, List.countP_append, List.countP_append]
       simp only [List.countP_cons, List.countP_nil, Nat.zero_add]
-      cases l0 with
-      | d a =>
-        cases a with
-        | wake sp =>
-          cases sp with
-          | true =>
-            have := hr.2.1 rfl
-            simp [Label.proper, Label.spurious, Label.isEnv, Label.isDeliver]; omega
-          | false =>
-            have := hr.1 rfl
-            simp [Label.proper, Label.spurious, Label.isEnv, Label.isDeliver]; omega
-        | createS | lock | wait | relock | create _ | unlock | cancelS | ret =>
-          have := hr.1 rfl
-          simp [Label.proper, Label.spurious, Label.isEnv, Label.isDeliver]; omega
-      | w i a =>
-        have := hr.1 rfl
-        simp [Label.proper, Label.spurious, Label.isEnv, Label.isDeliver]; omega
-      | s a =>
-        have := hr.1 rfl
-        simp [Label.proper, Label.spurious, Label.isEnv, Label.isDeliver]; omega
-      | e a =>
-        cases a with
-        | deliver g =>
-          have := hr.2.2.1 rfl
-          rw [hn] at this
-          simp [Label.proper, Label.spurious, Label.isEnv, Label.isDeliver, Nat.mul_add]; omega
-        | tick t =>
-          have := hr.2.2.2 rfl
-          simp [Label.proper, Label.spurious, Label.isEnv, Label.isDeliver]; omega
+      by_cases hp : l0.proper = true
+      · have h1 := hr.1 hp
+        have h2 : l0.spurious = false := by
+          simp only [Label.proper, Bool.and_eq_true, Bool.not_eq_true'] at hp; exact hp.1
+        have h3 : l0.isDeliver = false := by
+          cases l0 <;> simp_all [Label.proper, Label.isEnv, Label.isDeliver]
+        have h4 : l0.isWdogWake = false := by
+          cases l0 <;> simp_all [Label.proper, Label.isEnv, Label.isWdogWake]
+          rename_i a; cases a <;> simp_all [Label.isEnv]
+        simp [hp, h2, h3, h4]; omega
+      · have hp' : l0.proper = false := by cases hh : l0.proper <;> simp_all
+        by_cases hsp : l0.spurious = true
+        · have h1 := hr.2.1 hsp
+          have h3 : l0.isDeliver = false := by cases l0 <;> simp_all [Label.spurious, Label.isDeliver]
+          have h4 : l0.isWdogWake = false := by cases l0 <;> simp_all [Label.spurious, Label.isWdogWake]
+          simp [hp', hsp, h3, h4]; omega
+        · have hsp' : l0.spurious = false := by cases hh : l0.spurious <;> simp_all
+          -- not proper, not spurious: an environment step
+          cases l0 with
+          | e a =>
+            cases a with
+            | deliver g0 =>
+              have := hr.2.2.1 rfl
+              rw [hn] at this
+              simp [Label.proper, Label.spurious, Label.isEnv, Label.isDeliver, Label.isWdogWake, Nat.mul_add]; omega
+            | tick t =>
+              have := hr.2.2.2.1 rfl
+              simp [Label.proper, Label.spurious, Label.isEnv, Label.isDeliver, Label.isWdogWake]; omega
+          | g a =>
+            cases a with
+            | wake =>
+              have := hr.2.2.2.2 rfl
+              simp [Label.proper, Label.spurious, Label.isEnv, Label.isDeliver, Label.isWdogWake, Nat.mul_add]; omega
+            | lockT => simp [Label.proper, Label.spurious, Label.isEnv] at hp'
+            | unlockT => simp [Label.proper, Label.spurious, Label.isEnv] at hp'
+          | d a => simp [Label.proper, Label.isEnv, hsp'] at hp'
+          | w i a => simp [Label.proper, Label.isEnv, Label.spurious] at hp'
+          | s a => simp [Label.proper, Label.isEnv, Label.spurious] at hp'
   have := key he
-  have := rank_init v g f n b t0
+  have := rank_init v g sw f n b t0
   omega
 
 end PdshVerif.Dsh.Sig
